@@ -188,6 +188,13 @@ fn c09_check(text: &str, case_seed: u64, variant: &str, acc: &mut Acc) -> bool {
 fn wide_program(r: &mut Prng) -> String {
     let n = *r.pick(&[65usize, 66, 70, 127, 128, 129, 130, 200, 257, 300]);
     let mut names: Vec<String> = (0..n).map(|i| format!("s{i}")).collect();
+    if r.chance(1, 4) {
+        // one very long name (just past 63 / 127 / 255 bytes), ASCII or multi-byte
+        let unit = *r.pick(&["a", "é", "数"]);
+        let bytes = *r.pick(&[63usize, 64, 65, 128, 129, 256, 257, 1000]);
+        let k = r.below(n);
+        names[k] = format!("L{}", unit.repeat(bytes.div_ceil(unit.len())));
+    }
     if r.chance(1, 3) {
         // a repeated name (adjacent or far apart, at a low or a high position): an error, no panic
         let j = *r.pick(&[0usize, 31, 32, 33, 63, 64, 65, 127, 128, 129, 255, 256]).min(&(n - 2));
@@ -410,7 +417,7 @@ pub fn c09_exhaustive(tier: &str, acc: &mut Acc) -> Value {
 pub const META_C12: Meta = Meta {
     id: "C12",
     level: "exploration",
-    rule: "Each case takes one generated valid program (accepted by the crate in the same run, so a rejection is due to the edit) and applies every applicable instance of 16 single grammar-breaking edit operators, working on token spans found by the harness tokenizer: M1 delete a block's `end loop`/`end while`; M2 swap `end loop`<->`end while`, bare `end`, `end repeat`; M3 insert `end loop`/`end while` at top level; M4 delete / append one row entry, bits(k+-1,..); M5 delete one `;` `)` `(` `,`; M6 unknown function name, one argument more / fewer; M7 replace a literal by 2^63 / 2^64 in decimal, hex, binary, octal; M8 bits(k,..) with k in {65,100,255,256,10^6} and k+256, k+512, k+2^16, k+2^32; M9 duplicate a header name, duplicate a declare; M10 header only, no line break; M11 truncate at every token boundary at block depth > 0 or strictly inside a statement; M12 more tokens on the same line after a complete statement (`let a = 1; 1 0`, `end loop 1`), `end loopx`; M13 letters glued to a number; M14 a comma where none belongs - dangling before the closing parenthesis, leading after the opening one, doubled, or an empty argument list - in calls of random / ite / signExt and in bits( loop( repeat( while(; M15 one argument too many / too few in bits( loop( repeat( while(; M16 damaged let / declare heads (no name, a number as name, two names, no `=`, `= =`); 1.5% of the cases are instead wide headers (34-300 names) in which one name is repeated at positions around 32 / 64 / 128 / 256 or at the far end, adjacent or far apart, the column count staying right - each in three endings {as is, trailing newline added, trailing newlines removed} and in LF and CRLF. A mutant counts only if it is invalid by construction AND the independent recogniser refparse rejects it (so a mistake in either cannot alarm alone); then from_str must return Err. Ok = violation; a panic is C09's business and only counted. Non-trivial = a confirmed-invalid mutant of an accepted parent, distinct by text.",
+    rule: "Each case takes one generated valid program (accepted by the crate in the same run, so a rejection is due to the edit) and applies every applicable instance of 16 single grammar-breaking edit operators, working on token spans found by the harness tokenizer: M1 delete a block's `end loop`/`end while`; M2 swap `end loop`<->`end while`, bare `end`, `end repeat`; M3 insert `end loop`/`end while` at top level; M4 delete / append one row entry, bits(k+-1,..); M5 delete one `;` `)` `(` `,`; M6 unknown function name, one argument more / fewer; M7 replace a literal by 2^63 / 2^64 in decimal, hex, binary, octal; M8 bits(k,..) with k in {65,100,255,256,10^6} and k+256, k+512, k+2^16, k+2^32; M9 duplicate a header name, duplicate a declare; M10 header only, no line break; M11 truncate at every token boundary at block depth > 0 or strictly inside a statement; M12 more tokens on the same line after a complete statement (`let a = 1; 1 0`, `end loop 1`), `end loopx`; M13 letters glued to a number; M14 a comma where none belongs - dangling before the closing parenthesis, leading after the opening one, doubled, or an empty argument list - in calls of random / ite / signExt and in bits( loop( repeat( while(; M15 one argument too many / too few in bits( loop( repeat( while(; M16 damaged let / declare heads (no name, a number as name, two names, no `=`, `= =`); 1.5% of the cases are instead wide headers (34-300 names) in which one name is repeated at positions around 32 / 64 / 128 / 256 or at the far end, adjacent or far apart, the column count staying right, and 0.8% narrow headers that repeat a LONG name (63-300 bytes, ASCII or multi-byte) - each in three endings {as is, trailing newline added, trailing newlines removed} and in LF and CRLF. A mutant counts only if it is invalid by construction AND the independent recogniser refparse rejects it (so a mistake in either cannot alarm alone); then from_str must return Err. Ok = violation; a panic is C09's business and only counted. Non-trivial = a confirmed-invalid mutant of an accepted parent, distinct by text.",
     assumptions: &["refparse.rs (recogniser written from the grammar as stated in C08/C12) confirms invalidity", "harness tokenizer reflex.rs locates tokens"],
     quick_cases: 8000,
     thorough_cases: 200000,
@@ -715,11 +722,54 @@ fn c12_wide_duplicates(case_seed: u64, r: &mut Prng, acc: &mut Acc) {
     acc.nontrivial.insert(crate::prng::hash_bytes(format!("wide-dup-{n}-{case_seed}").as_bytes()));
 }
 
+/// Narrow headers in which a LONG name (63 / 64 / 65 / 100 / 300 bytes, ASCII or multi-byte)
+/// is repeated: rejected like any other duplicate.
+fn c12_long_name_duplicates(case_seed: u64, r: &mut Prng, acc: &mut Acc) {
+    let unit = *r.pick(&["a", "Q", "é", "数", "_"]);
+    for bytes in [63usize, 64, 65, 66, 100, 127, 128, 129, 300] {
+        let reps = bytes.div_ceil(unit.len());
+        let long = format!("L{}", unit.repeat(reps));
+        let other = format!("M{}", unit.repeat(reps));
+        for (hdr, row) in [
+            (format!("{long} {long}"), "1 1"),
+            (format!("A {long} B {long}"), "1 1 1 1"),
+            (format!("{long} {other} {long}"), "1 1 1"),
+            (format!("{other} {long} {long} C"), "1 1 1 1"),
+        ] {
+            let text = format!("{hdr}\n{row}\n");
+            if refparse::recognise(&text).is_ok() {
+                acc.tag("mutant_not_confirmed_invalid_(skipped)");
+                continue;
+            }
+            acc.evaluations += 1;
+            acc.distinct.insert(crate::prng::hash_bytes(text.as_bytes()));
+            match guarded(|| ParsedTestCase::from_str(&text)) {
+                Err(_) => acc.tag("observation:parser_panic_on_mutant_(C09)"),
+                Ok(Err(_)) => acc.tag("rejected:M9-duplicate-long-name"),
+                Ok(Ok(_)) => {
+                    acc.violation(
+                        case_seed,
+                        "M9-duplicate-long-name",
+                        Finding::new("accepted-malformed:M9-duplicate-long-name", format!("a header that repeats a name of {} bytes is accepted", long.len())),
+                        json!({"text": text}),
+                    );
+                    return;
+                }
+            }
+        }
+    }
+    acc.held += 1;
+    acc.nontrivial.insert(crate::prng::hash_bytes(format!("long-dup-{unit}-{case_seed}").as_bytes()));
+}
+
 pub fn c12(case_seed: u64, acc: &mut Acc) {
     let mut r = Prng::new(case_seed);
     acc.cases += 1;
     if r.chance(15, 1000) {
         return c12_wide_duplicates(case_seed, &mut r, acc);
+    }
+    if r.chance(8, 1000) {
+        return c12_long_name_duplicates(case_seed, &mut r, acc);
     }
     let c = corpus_case(&mut r);
     let mut lay = c.layout_opts.clone();
